@@ -31,6 +31,7 @@ func c07(c *Ctx) {
 	// the watermark band the balancer works towards is well-formed (shared rule C19.R2)
 	c04R4(c)
 	c19R2(c)
+	c07R7(c)
 }
 
 // R6: the pool sync always looks at the surplus. The trimming half of
@@ -669,4 +670,81 @@ func c07R5(c *Ctx) {
 		}
 		c.Floor("C07.R5", "cloud allocation calls in the worker", 3, n)
 	}
+}
+
+// R7: what the factory calls "confirmed". After an assignment ALL addresses must
+// be visible in the instance metadata; after an unassignment NONE may be. The
+// poll conditions have exactly these quantifiers: the expected addresses under a
+// universal test, the removed ones under the negation of an existential test.
+func c07R7(c *Ctx) {
+	p := c.P
+	c.Rule("C07.R7", "metadata confirmation quantifiers: validateIPInMetadata polls for HasAll(expected) (or an equivalent universal test), validateIPNotInMetadata for !HasAny(gone) — a removal is confirmed only when none of the addresses is visible any more (the cloud answers a batch with 'already unassigned' as success)")
+	type want struct {
+		fn   string
+		neg  bool
+		call string
+		alt  string
+	}
+	n := 0
+	for _, w := range []want{{"validateIPInMetadata", false, "HasAll", ""}, {"validateIPNotInMetadata", true, "HasAny", ""}} {
+		fn := p.Func(factoryAliyunPkg, w.fn)
+		if fn == nil {
+			c.Unres("C07.R7", w.fn, "not found")
+			continue
+		}
+		info := fn.Info()
+		// the slice parameter under test
+		var param types.Object
+		for _, f := range fn.Decl.Type.Params.List {
+			for _, nm := range f.Names {
+				if _, isSlice := info.Defs[nm].Type().Underlying().(*types.Slice); isSlice {
+					param = info.Defs[nm]
+				}
+			}
+		}
+		// the boolean results of the poll closure
+		ast.Inspect(fn.Decl.Body, func(k ast.Node) bool {
+			lit, ok := k.(*ast.FuncLit)
+			if !ok {
+				return true
+			}
+			sig, _ := info.TypeOf(lit).(*types.Signature)
+			if sig == nil || sig.Results().Len() != 2 {
+				return true
+			}
+			for _, r := range declReturns(lit.Body) {
+				if len(r.Results) != 2 {
+					continue
+				}
+				x := ast.Unparen(r.Results[0])
+				if tv := info.Types[x]; tv.Value != nil {
+					continue // a constant (false on a read error)
+				}
+				n++
+				neg := false
+				if u, ok := x.(*ast.UnaryExpr); ok && u.Op == token.NOT {
+					neg, x = true, ast.Unparen(u.X)
+				}
+				x = ast.Unparen(derefExpr(fn, x))
+				call, isCall := x.(*ast.CallExpr)
+				name := ""
+				usesParam := false
+				if isCall {
+					if f := Callee(info, call); f != nil {
+						name = f.Name()
+					}
+					for _, a := range call.Args {
+						if identObj(info, a) == param {
+							usesParam = true
+						}
+					}
+				}
+				ok := isCall && usesParam && neg == w.neg && name == w.call
+				c.Check(ok, "C07.R7", w.fn+": the poll condition has the right quantifier", p.Pos(r), fn.Key(),
+					map[bool]string{false: "", true: "!"}[w.neg]+"<metadata set>."+w.call+"(<addresses>...)", fmt.Sprintf("negated=%v test=%s over-the-parameter=%v", neg, name, usesParam))
+			}
+			return false
+		})
+	}
+	c.Floor("C07.R7", "poll conditions", 2, n)
 }
